@@ -207,7 +207,7 @@ PROPS = {
                 "integrals, arguments unchanged. Distinct = (step kind, solver kind, molecule, shots) tuples; non-trivial = run "
                 "with >=3 steps of >=2 kinds or >=1 refusal.",
         "probes": ["C13.returned_arrays_modified_by_caller", "C13.get_rdm_again_after_caller_modified_result", "C13.resample_after_get_rdm",
-                   "C13.spin_resolved_form", "C13.padding_with_frozen_orbitals", "C13.unrestricted_form", "C13.orbitals_rotated_between_solver_runs", "C13.caller_owned_parameter_array_reused"],
+                   "C13.spin_resolved_form", "C13.padding_with_frozen_orbitals", "C13.unrestricted_form", "C13.orbitals_rotated_between_solver_runs", "C13.caller_owned_parameter_array_reused", "C13.other_query_between_simulate_and_get_rdm"],
         "components_real": ["FCISolver / CCSDSolver / MP2Solver (PySCF back ends) incl. their simulate-before-get_rdm protocol, VQESolver.get_rdm "
                             "(exact and sampled, resample route), SecondQuantizedMolecule.energy_from_rdms, pad_rdms_with_frozen_orbitals_restricted, "
                             "cirq backend, fermion_to_qubit_mapping"],
